@@ -23,6 +23,8 @@ type Config struct {
 	SolverKind string
 	TimeoutMs  int
 	IntMode    bool
+	FPReal     bool
+	FallbackS  int
 	Samples    int
 	Deadline   time.Time
 	Trace      bool
@@ -104,6 +106,7 @@ type Interp struct {
 	capOblig, capExplore int64
 	unwindCut int
 	known map[*Term]bool
+	opaqueBuilders map[*Value]bool
 	ivals map[*Term]ival
 	masks map[*Term]*big.Int
 	knownVal map[*Term]uint64
